@@ -535,37 +535,31 @@ def C19_total_full : Prop :=
     | .ok _ => True
     | .error e => 1 ≤ e.line
 
-/-- The proved part: for every font and every text (any bytes), the model of `Parse` — lexer,
+/-- Totality, for every font and every text (any bytes, no exclusion): the model of `Parse` — lexer,
 item supply with push-back, `fatal`, lookup flags, glyph lists with names, numbers, strings and
-ranges, GSUB 1–4 and GPOS 1–4 with several subtables, value records, class lists, adjust
-matrices, entry/exit anchors, mark and base records — returns lookups, or an error whose line
-number is ≥ 1, or stops at a lookup form the model does not cover (GSUB 5/6: marker `unmodelled`).  No loop of the model runs out of fuel (that would be an error of line 0 with
-another marker). -/
-theorem C19_total_partial (f : Font) (bs : List Nat) :
-    match parseBytes f bs with
-    | .ok _ => True
-    | .error e => 1 ≤ e.line ∨ e.cls = unmodelled := by
-  obtain ⟨pre, t, e, ht, _, hl, _⟩ := lexFrom_ok (decodeUtf8 bs) (.start []) 1
-  exact parseToks_total f _ pre t e ht hl
-
-/-- Totality without escape, on the modelled part of the language: for every font and every text
-in which no item is one of the keywords `GSUB5`, `GSUB6`, `GPOS7`, `GPOS8` (`Bad`), the parser model
-returns lookups or an error whose line number is ≥ 1.  Every other text is covered: unknown
-keywords, malformed GSUB 1–4 and GPOS 1–4 bodies, lexer errors, any bytes. -/
-theorem C19_total (f : Font) (bs : List Nat) (h : ∀ t ∈ lexRunes (decodeUtf8 bs), Bad t = false) :
+ranges, GSUB 1–6 and GPOS 1–4, 7, 8 in all their formats with several subtables, value records,
+class lists and class definitions, adjust matrices, anchors, nested actions — returns lookups or
+an error whose line number is ≥ 1.  No loop of the model runs out of fuel (that would be an
+error of line 0). -/
+theorem C19_total (f : Font) (bs : List Nat) :
     match parseBytes f bs with
     | .ok _ => True
     | .error e => 1 ≤ e.line := by
   obtain ⟨pre, t, e, ht, _, hl, _⟩ := lexFrom_ok (decodeUtf8 bs) (.start []) 1
-  exact parseToks_total_clean f _ pre t e ht hl h
+  exact parseToks_total_full f _ pre t e ht hl
 
-/-- the hypothesis holds for an ordinary (here: erroneous) text `GSUB1: A -> B⏎GSUB2: A` -/
-example : ∀ t ∈ lexRunes (decodeUtf8 [71, 83, 85, 66, 49, 58, 32, 65, 32, 45, 62, 32, 66, 10, 71, 83, 85, 66, 50, 58, 32, 65]),
-    Bad t = false := by decide +kernel
+/-- the full statement is proved -/
+theorem C19_total_full_holds : C19_total_full := C19_total
 
-/-- the hypothesis is about four identifiers only -/
-example (t : Tok) (h : t.typ ≠ tIdentifier) : Bad t = false := by
-  simp [Bad, isIdent, h]
+/-- the round-2 form with the escape `unmodelled`, kept for reference: it follows -/
+theorem C19_total_partial (f : Font) (bs : List Nat) :
+    match parseBytes f bs with
+    | .ok _ => True
+    | .error e => 1 ≤ e.line ∨ e.cls = unmodelled := by
+  have := C19_total f bs
+  cases hp : parseBytes f bs with
+  | ok r => trivial
+  | error e => rw [hp] at this; exact Or.inl this
 
 example : errFuel ≠ unmodelled := by decide
 /-- an erroring text: the error carries line 2 -/
